@@ -523,7 +523,7 @@ def parseVal (s : String) : Option Val :=
   | ["b", "1"] => some (.bool true)
   | ["bytes", x] => (fromHex x).map .bytes
   | ["str", x] => (fromHex x).map .str
-  | ["dec", i, p, sc] => do
+  | ["dec", i, p, sc] | ["decr", i, p, sc] => do   -- decr: the object went through a rejected SetString, which leaves it untouched
       let i ← i.toInt?
       let p ← p.toNat?
       let sc ← sc.toNat?
